@@ -2142,7 +2142,12 @@ class Engine:
 		if isinstance(obj, SObj):
 			q = self.lib.get('class:' + obj.T.name)
 			if q is None:
-				raise Unsupported(f'method {name} of {obj.T.name}')
+				h = self.lib.get('method:' + name)
+				if h is None:
+					raise Unsupported(f'method {name} of {obj.T.name}')
+				self.assumptions_used.add('method:' + name)
+				yield from h(self, st, obj, args, kwargs, node, site)
+				return
 			yield from self.call_repo(st, f'{q}.{name}', args, kwargs, node, site, self_val=obj)
 			return
 		if isinstance(obj, Ref) and isinstance(st.heap[obj.addr], Record):
